@@ -5,6 +5,7 @@
 //    topology whose bead names and bead types are different permutations of the same words,
 //    against direct enumeration with the reference matcher.
 #include <memory>
+#include <stdexcept>
 
 #include "bsx.h"
 #include "votca/csg/beadlist.h"
@@ -18,21 +19,21 @@ using bsx::Outcome;
 // '?' = exactly one character, everything else literal.
 static bool refmatch(const std::string &p, const std::string &s) {
   size_t n = p.size(), m = s.size();
-  static std::vector<char> buf;
-  buf.assign((n + 1) * (m + 1), 0);
-  auto dp = [&](size_t i, size_t j) -> char & { return buf[i * (m + 1) + j]; };
-  dp(0, 0) = 1;
+  if (n > 15 || m > 23) throw std::runtime_error("refmatch: input longer than the enumerated universes");
+  char dp[16][24];
+  for (size_t j = 0; j <= m; j++) dp[0][j] = 0;
+  dp[0][0] = 1;
   for (size_t i = 1; i <= n; i++) {
+    char c = p[i - 1];
     for (size_t j = 0; j <= m; j++) {
-      char c = p[i - 1];
       bool v;
-      if (c == '*') v = dp(i - 1, j) || (j > 0 && dp(i, j - 1));
-      else if (c == '?') v = j > 0 && dp(i - 1, j - 1);
-      else v = j > 0 && dp(i - 1, j - 1) && s[j - 1] == c;
-      dp(i, j) = v;
+      if (c == '*') v = dp[i - 1][j] || (j > 0 && dp[i][j - 1]);
+      else if (c == '?') v = j > 0 && dp[i - 1][j - 1];
+      else v = j > 0 && dp[i - 1][j - 1] && s[j - 1] == c;
+      dp[i][j] = v;
     }
   }
-  return dp(n, m);
+  return dp[n][m];
 }
 
 static std::vector<std::string> words(const std::string &alpha, int maxlen) {
@@ -63,27 +64,30 @@ struct Heap {
   const char *c() const { return p.get(); }
 };
 
-// one (pattern,string) pair
+// one (pattern,string) pair; hot path without allocations: 0 = agrees, 1 = overloads disagree, 2 = wrong answer
+static inline int wild_check(const std::string &p, const std::string &s, const char *hp, const char *hs, bool &exp, int &g1, int &g2) {
+  exp = refmatch(p, s);
+  g2 = votca::tools::wildcmp(hp, hs);  // first: an out-of-bounds read dies here, before anything depends on it
+  g1 = votca::tools::wildcmp(p, s);
+  if ((g1 != 0) != (g2 != 0)) return 1;
+  return ((g1 != 0) != exp) ? 2 : 0;
+}
 static Outcome wild_one(const std::string &p, const std::string &s, const char *hp = nullptr, const char *hs = nullptr) {
   Outcome o;
-  bool exp = refmatch(p, s);
   std::unique_ptr<Heap> own_p, own_s;
   if (!hp) { own_p.reset(new Heap(p)); hp = own_p->c(); }
   if (!hs) { own_s.reset(new Heap(s)); hs = own_s->c(); }
-  int g2 = votca::tools::wildcmp(hp, hs);  // first: an out-of-bounds read dies here, before anything depends on it
-  int g1 = votca::tools::wildcmp(p, s);
+  bool exp; int g1, g2;
+  int rc = wild_check(p, s, hp, hs, exp, g1, g2);
+  if (rc == 0) return o;
   std::string cas = "wild;p=" + p + ";s=" + s;
-  if ((g1 != 0) != (g2 != 0)) {
-    o.ok = false; o.key = "wildcmp-overloads-disagree";
+  o.ok = false; o.extra = cas;
+  if (rc == 1) {
+    o.key = "wildcmp-overloads-disagree";
     o.what = "wildcmp(string,string)=" + std::to_string(g1) + " but wildcmp(char*,char*)=" + std::to_string(g2) + " [" + cas + "]";
-    o.extra = cas;
-    return o;
-  }
-  if ((g1 != 0) != exp) {
-    o.ok = false;
+  } else {
     o.key = std::string("wildcmp-") + (exp ? "false-negative-" : "false-positive-") + starclass(p);
     o.what = "wildcmp(\"" + p + "\",\"" + s + "\") = " + std::to_string(g1) + ", glob meaning says " + (exp ? "match" : "no match");
-    o.extra = cas;
   }
   return o;
 }
@@ -92,16 +96,14 @@ static Outcome wild_one(const std::string &p, const std::string &s, const char *
 struct Universe { std::string name, palpha, salpha; int plen, slen; };
 static Outcome wild_pattern(const std::string &p, const std::vector<std::string> &S, const std::vector<Heap> &HS) {
   Outcome o;
-  uint64_t h = bsx::fnv(std::string("m"));
+  uint64_t h = 1469598103934665603ull;
   long nm = 0;
   Heap hp(p);
   for (size_t k = 0; k < S.size(); k++) {
-    const std::string &s = S[k];
-    Outcome r = wild_one(p, s, hp.c(), HS[k].c());
-    if (!r.ok) return r;  // first (shortest) failing string of this pattern
-    bool m = refmatch(p, s);
+    bool m; int g1, g2;
+    if (wild_check(p, S[k], hp.c(), HS[k].c(), m, g1, g2) != 0) return wild_one(p, S[k], hp.c(), HS[k].c());  // first (shortest) failing string
     nm += m;
-    h = bsx::fnv(m ? "1" : "0", 1, h);
+    h = (h ^ (unsigned char)(m ? '1' : '0')) * 1099511628211ull;
   }
   o.extra = std::to_string(nm);
   if (nm > 0 && nm < (long)S.size()) o.cls = h;  // the match set restricted to the universe
@@ -109,22 +111,34 @@ static Outcome wild_pattern(const std::string &p, const std::vector<std::string>
 }
 
 // ---------------------------------------------------------------- bead selection
-static const char *BNAME[6] = {"a", "ab", "b", "ba", "aab", "bb"};
-static const char *BTYPE[6] = {"b", "a", "ab", "bb", "ba", "aab"};
+struct BTop { std::vector<std::string> name, type; };
+static const std::vector<BTop> &btops() {
+  static const std::vector<BTop> T = {
+      // 0: names and types are different permutations of the same six words
+      {{"a", "ab", "b", "ba", "aab", "bb"}, {"b", "a", "ab", "bb", "ba", "aab"}},
+      // 1: three letters
+      {{"c", "ac", "ca", "abc", "cab", "bc", "a", "cc"}, {"abc", "c", "a", "cc", "ac", "ca", "cab", "bc"}},
+      // 2: repeated names / types (several beads per value, order of the result matters), longer words
+      {{"a", "a", "ab", "ab", "aba", "abab", "b", "bab", "ababa"}, {"ab", "b", "a", "aba", "ab", "a", "abab", "a", "b"}}};
+  return T;
+}
 
-static Outcome bead_case(const std::string &mode, const std::string &p) {
+static Outcome bead_case(int topi, const std::string &mode, const std::string &p) {
   using namespace votca::csg;
   Outcome o;
-  std::string cas = "bead;mode=" + mode + ";p=" + p;
+  std::string cas = "bead;top=" + std::to_string(topi) + ";mode=" + mode + ";p=" + p;
+  if (topi < 0 || topi >= (int)btops().size()) { o.ok = false; o.key = "bad-case"; o.what = "unknown topology"; return o; }
+  const BTop &B = btops()[topi];
+  const int nb = (int)B.name.size();
   Topology top;
   top.CreateResidue("res");
-  for (int i = 0; i < 6; i++) {
-    if (!top.BeadTypeExist(BTYPE[i])) top.RegisterBeadType(BTYPE[i]);
-    top.CreateBead(Bead::spherical, BNAME[i], BTYPE[i], 0, 1.0, 0.0);
+  for (int i = 0; i < nb; i++) {
+    if (!top.BeadTypeExist(B.type[i])) top.RegisterBeadType(B.type[i]);
+    top.CreateBead(Bead::spherical, B.name[i], B.type[i], 0, 1.0, 0.0);
   }
   std::vector<long> exp;
-  for (int i = 0; i < 6; i++)
-    if (refmatch(p, mode == "name" ? BNAME[i] : BTYPE[i])) exp.push_back(i);
+  for (int i = 0; i < nb; i++)
+    if (refmatch(p, mode == "name" ? B.name[i] : B.type[i])) exp.push_back(i);
   BeadList bl;
   votca::Index n = bl.Generate(top, (mode == "name" ? "name:" : "") + p);
   std::vector<long> got;
@@ -145,14 +159,14 @@ static Outcome bead_case(const std::string &mode, const std::string &p) {
     return o;
   }
   o.extra = show(got);
-  if (!exp.empty() && exp.size() < 6) o.cls = bsx::fnv(mode + show(got));
+  if (!exp.empty() && (int)exp.size() < nb) o.cls = bsx::fnv(std::to_string(topi) + mode + show(got));
   return o;
 }
 
 static Outcome run_case(const std::string &cas) {
   auto m = bsx::kvs(cas);
   if (cas.rfind("wild;", 0) == 0) return wild_one(m["p"], m["s"]);
-  if (cas.rfind("bead;", 0) == 0) return bead_case(m["mode"], m["p"]);
+  if (cas.rfind("bead;", 0) == 0) return bead_case(atoi(m["top"].c_str()), m["mode"], m["p"]);
   Outcome o; o.ok = false; o.key = "bad-case"; o.what = "unknown case " + cas;
   return o;
 }
@@ -173,17 +187,19 @@ int main(int argc, char **argv) {
   U.push_back({"ab", "ab*?", "ab", 5, 6});
   U.push_back({"literal-metachars", "a*?", "a*?", 4, 4});  // '*' and '?' occurring in the subject string
   if (thorough) {
-    U.push_back({"abc", "abc*?", "abc", 5, 6});
-    U.push_back({"ab-long", "ab*?", "ab", 7, 8});
-    U.push_back({"long", "ab*", "ab", 7, 10});
-    U.push_back({"long-q", "a*?", "ab", 8, 9});
+    U.push_back({"abc", "abc*?", "abc", 7, 9});        // third letter, longer patterns and strings
+    U.push_back({"abcd", "abcd*?", "abcd", 5, 7});     // fourth letter
+    U.push_back({"abcd-p6", "abcd*?", "abcd", 6, 6});  // fourth letter, longer patterns
+    U.push_back({"ab-long", "ab*?", "ab", 9, 11});     // longer patterns and strings over two letters
+    U.push_back({"stars", "a*?", "ab", 9, 12});        // many stars / question marks
+    U.push_back({"long-literal", "ab*", "ab", 9, 13}); // long literal runs between stars
   }
   R.rule = "wildcmp: complete product patterns x strings per universe (pattern alphabet/max length x string alphabet/max length): ";
   for (auto &u : U) R.rule += "[" + u.palpha + "]<=" + std::to_string(u.plen) + " x [" + u.salpha + "]<=" + std::to_string(u.slen) + "; ";
   R.rule += "both overloads, oracle = DP glob matcher; distinct = distinct non-trivial match sets (pattern language restricted to the universe). "
-            "BeadList::Generate: all patterns of length <= " + std::string(thorough ? "4" : "3") +
-            " over {a,b,*,?} as type pattern and as 'name:' pattern on a 6-bead topology (names/types are different permutations of "
-            "{a,b,ab,ba,aab,bb}); oracle = reference matcher over the beads in topology order; distinct = distinct non-trivial selections";
+            "BeadList::Generate: " + std::string(thorough ? "all patterns of length <= 5 over {a,b,*,?} and <= 4 over {a,b,c,*,?} on 3 topologies (6 beads two letters; 8 beads three letters; 9 beads with repeated names/types)"
+                                                            : "all patterns of length <= 3 over {a,b,*,?} on a 6-bead topology (names/types are different permutations of {a,b,ab,ba,aab,bb})") +
+            ", each as type pattern and as 'name:' pattern; oracle = reference matcher over the beads in topology order; distinct = distinct non-trivial selections";
 
   long long gi = 0;
   for (auto &u : U) {
@@ -225,21 +241,28 @@ int main(int argc, char **argv) {
   }
   // bead selection
   {
-    std::vector<std::string> P = words("ab*?", thorough ? 4 : 3);
-    std::vector<std::pair<std::string, std::string>> C;
-    for (auto &p : P) { C.push_back({"type", p}); C.push_back({"name", p}); }
+    struct BC { int top; std::string mode, p; };
+    std::vector<BC> C;
+    if (!thorough) {
+      for (auto &p : words("ab*?", 3)) { C.push_back({0, "type", p}); C.push_back({0, "name", p}); }
+    } else {
+      std::vector<std::string> P = words("ab*?", 5);
+      for (auto &p : words("abc*?", 4)) if (p.find('c') != std::string::npos) P.push_back(p);
+      for (int t = 0; t < (int)btops().size(); t++)
+        for (auto &p : P) { C.push_back({t, "type", p}); C.push_back({t, "name", p}); }
+    }
     std::vector<long long> mineidx;
     for (long long i = 0; i < (long long)C.size(); i++) if (a.mine(i)) mineidx.push_back(i);
     bsx::contained(
-        0, (long long)mineidx.size(), [&](long long k) { return bead_case(C[mineidx[k]].first, C[mineidx[k]].second); },
+        0, (long long)mineidx.size(), [&](long long k) { return bead_case(C[mineidx[k]].top, C[mineidx[k]].mode, C[mineidx[k]].p); },
         [&](long long k, const Outcome &o) {
           auto &c = C[mineidx[k]];
-          std::string cas = "bead;mode=" + c.first + ";p=" + c.second;
+          std::string cas = "bead;top=" + std::to_string(c.top) + ";mode=" + c.mode + ";p=" + c.p;
           R.eval(); R.counters["bead_cases"]++;
-          if (!o.ok) { R.fail(o.key == "fatal" ? "beadlist-" + c.first + "-crash" : o.key, o.what + (o.key == "fatal" ? " [" + cas + "]" : ""), cas); return; }
+          if (!o.ok) { R.fail(o.key == "fatal" ? "beadlist-" + c.mode + "-crash" : o.key, o.what + (o.key == "fatal" ? " [" + cas + "]" : ""), cas); return; }
           if (o.cls) R.cls(o.cls);
-          if (R.samples.size() < 6 && o.cls && c.second.size() == 3 && c.second.find('*') != std::string::npos)
-            R.sample("Generate(\"" + std::string(c.first == "name" ? "name:" : "") + c.second + "\") -> bead ids " + o.extra);
+          if (R.samples.size() < 6 && o.cls && c.p.size() == 3 && c.p.find('*') != std::string::npos)
+            R.sample("topology " + std::to_string(c.top) + ": Generate(\"" + std::string(c.mode == "name" ? "name:" : "") + c.p + "\") -> bead ids " + o.extra);
         }, 30);
   }
   R.assumptions = {"glob meaning: '*' any run incl. empty, '?' exactly one character, all other characters literal (a '*' or '?' in the subject string is an ordinary character)",
